@@ -11,6 +11,7 @@ import Proofs.C17Loop
 
    parser      `parse_fixpoint`       parseArgs is exactly the recursion of `_parse` (no fuel artefact)
                `combined_short`       -abc… ≡ -a -b -c …            for boolean short flags
+               `combined_short_valued` -abX=v ≡ -a -b -X v           a group may end in a value option with =VALUE
                `eq_form`              --k=v ≡ --k v  (also -k=v)     for string/array/object options
                `dashdash_stops`       everything after `--` is positional, nothing before it changes
                `unknown_flag_err`, `unknown_short_err`, `missing_value_err`, `missing_pair_err`, `bool_takes_no_value`
@@ -23,6 +24,9 @@ import Proofs.C17Loop
                                        classes are the union (`classes_union`)           — full, no hypothesis
                `exit_combines`         exit (run fs) = precedence-max of the exits of the single runs
                `run_exit_is_exitCode`
+               `exit_ignores_error_value`   the status depends only on WHICH classes failed, never on the value a
+                                       program raised (null, false, 0, "", {} …): the memory holds a rendered string;
+                                       `exit_raw_memory_false`: storing the raw value (seeded change S2-C17-1) breaks it
                `inputs_independent_old_false`   documentation: the loop as it was before /repo commit 465c459f
                                        (finding `redecode-after-open-failure`, fixed) violated the statement
    modes       `slurp_is_array_of_singles`    the array `[inputs]` of slurp mode is exactly the sequence of values
@@ -140,6 +144,36 @@ theorem eq_form (t : Table) (k v : Str) (n : Str) (o : Opt) (hk : '=' ∉ k) (hf
   have hdd : k ≠ ['-', '-'] := by
     intro e; subst e; simp [looksLikeFlag] at hflag
   simp [step, argOf, h1, h2, hdd, hflag, hl, hv]
+
+/-- a combined group may end in a value option that carries its value with `=`:
+    `-abX=v` ≡ `-a -b -X v` (the attached value is not lost) -/
+theorem combined_short_valued (t : Table) (hs : ShortsAreShort t) (x : Char) (v : Str) (n : Str) (o : Opt)
+    (hx : x ≠ '=') (hxf : looksLikeFlag ['-', x] = true) (hl : lookup t ['-', x] = some (n, o))
+    (hv : (o.string || o.array || o.object) = true) :
+    ∀ (cs : List Char), (∀ c ∈ cs, BoolShort t c) → ∀ (rest : List Str) (r : R),
+      parseArgs t (('-' :: (cs ++ x :: '=' :: v)) :: rest) r =
+        parseArgs t (cs.map (fun c => ['-', c]) ++ ['-', x] :: v :: rest) r := by
+  intro cs
+  induction cs with
+  | nil =>
+    intro _ rest r
+    have hk : '=' ∉ (['-', x] : Str) := by simp [hx.symm]
+    have := eq_form t ['-', x] v n o hk hxf hl hv rest r
+    simpa using this
+  | cons c cs ih =>
+    intro hall rest r
+    have hc := hall c (by simp)
+    have hnext : ∃ d tl, cs ++ x :: '=' :: v = d :: tl ∧ d ≠ '=' := by
+      cases cs with
+      | nil => exact ⟨x, '=' :: v, rfl, hx⟩
+      | cons d cs' => exact ⟨d, cs' ++ x :: '=' :: v, rfl, (hall d (by simp)).2.2.1⟩
+    obtain ⟨d, tl, htl, hd⟩ := hnext
+    show parseArgs t (('-' :: c :: (cs ++ x :: '=' :: v)) :: rest) r = _
+    rw [htl, combined_short_head t hs c d tl hd hc, ← htl]
+    obtain ⟨hc1, hc2, hc3, nn, oo, hl', hp⟩ := hc
+    simp only [List.map_cons, List.cons_append]
+    rw [parse_bool_short t c nn oo hc1 hc2 hc3 hl' hp, parse_bool_short t c nn oo hc1 hc2 hc3 hl' hp]
+    exact ih (fun y hy => hall y (by simp [hy])) rest _
 
 /-- dashdash_stops: after `--` every argument is a positional, in order; options parsed so far are kept -/
 theorem dashdash_stops (t : Table) (post : List Str) (r : R) :
@@ -269,6 +303,11 @@ example : BoolShort sampleTable 'n' ∧ BoolShort sampleTable 'r' ∧ BoolShort 
 example : argsParse sampleTable (A ["-nrc", "x"]) = argsParse sampleTable (A ["-n", "-r", "-c", "x"]) ∧
     argsParse sampleTable (A ["-nrc", "x"]) =
       .ok { parsed := [(S "compact", .flag), (S "null_input", .flag), (S "raw_string", .flag)], rest := [S "x"] } := by decide
+
+/-- combined_short_valued, evaluated (the command line of the seeded change S2-C17-2) -/
+example : argsParse sampleTable [S "-cnd=json"] = argsParse sampleTable [S "-c", S "-n", S "-d", S "json"] ∧
+    argsParse sampleTable [S "-cnd=json"] =
+      .ok { parsed := [(S "compact", .flag), (S "decode_group", .str (S "json")), (S "null_input", .flag)], rest := [] } := by decide
 
 /-- eq_form, evaluated, with a value that itself contains `=` (the FIRST `=` splits) -/
 example : argsParse sampleTable [dd "option=a=b=c", S "-d=mp3"] = argsParse sampleTable [dd "option", S "a=b=c", S "-d", S "mp3"] ∧
@@ -506,7 +545,72 @@ theorem slurp_is_array_of_singles (env : Env C V Out) :
         have hd : List.drop (acc.length + 1) acc = [] := List.drop_eq_nil_of_le (by omega)
         simp [evalOne, List.drop_append, hd]
 
+/-- with the memory holding the rendered string, the loop that tracks error VALUES is the class-level loop -/
+theorem loopE_forget (env : EnvE C V Out) :
+    ∀ (fs : List Str) (st : StE Out), (loopE env (storeString env) fs st).toSt = loop env.forget fs st.toSt := by
+  intro fs
+  induction fs with
+  | nil => intro st; rfl
+  | cons h t ih =>
+    intro st
+    simp only [loopE, loop, EnvE.forget]
+    cases env.openF h with
+    | none => simp only []; rw [ih]; rfl
+    | some cnt =>
+      simp only []
+      cases env.decode cnt with
+      | none => simp only []; rw [ih]; rfl
+      | some v =>
+        simp only []
+        rw [ih]
+        congr 1
+        simp only [evalOneE, evalOne, StE.toSt, storeString]
+        cases hev : env.evalE v with
+        | mk outs err =>
+          cases err with
+          | none => simp
+          | some e => simp [EVal.truthy]
+
+/-- exit_ignores_error_value: the exit status of a run depends only on WHICH inputs failed in which class, not on
+    the values the program raised — two worlds that differ only in the error values (and their rendering) exit alike,
+    and the status is `exitCode` of the remembered classes -/
+theorem exit_ignores_error_value (env env' : EnvE C V Out) (h : env.forget = env'.forget) (c : Codes) (fs : List Str) :
+    (loopE env (storeString env) fs {}).exit c = (loopE env' (storeString env') fs {}).exit c ∧
+    (loopE env (storeString env) fs {}).exit c = exitCode c (runFiles env.forget fs).classes := by
+  have key : ∀ (e : EnvE C V Out), (loopE e (storeString e) fs {}).exit c = (runFiles e.forget fs).exit c := by
+    intro e
+    have := loopE_forget e fs {}
+    have h2 : (loopE e (storeString e) fs {}).exit c = ((loopE e (storeString e) fs {}).toSt).exit c := rfl
+    rw [h2, this]; rfl
+  refine ⟨by rw [key env, key env', h], ?_⟩
+  rw [key env, run_exit_is_exitCode]
+
 end loop
+
+/-- a world in which the program raises `null` on the input `num` and `"x"` on `str` -/
+def sampleEnvE (raised : EVal) : EnvE Nat Nat Nat where
+  openF := fun n => if n = S "num" then some 1 else some 2
+  decode := some
+  evalE := fun v => if v = 1 then ([], some raised) else ([v], none)
+  render := fun _ => S "rendered"
+
+/-- exit_ignores_error_value on values: null, false, a number, an object raise the same status 5 … -/
+example : (loopE (sampleEnvE .null) (storeString (sampleEnvE .null)) (A ["obj", "num"]) {}).exit fqCodes = 5 ∧
+    (loopE (sampleEnvE .false) (storeString (sampleEnvE .false)) (A ["num", "obj"]) {}).exit fqCodes = 5 ∧
+    (loopE (sampleEnvE .obj) (storeString (sampleEnvE .obj)) (A ["obj", "num", "obj"]) {}).exit fqCodes = 5 ∧
+    (sampleEnvE .null).forget = (sampleEnvE .obj).forget := by
+  refine ⟨by decide, by decide, by decide, ?_⟩
+  simp only [EnvE.forget, sampleEnvE]
+  congr 1
+  funext v
+  by_cases h : v = 1 <;> simp [h]
+
+/-- … and storing the RAW value (seeded change S2-C17-1) breaks it: a falsy value raised by the last failing
+    input gives status 0 -/
+theorem exit_raw_memory_false :
+    (loopE (sampleEnvE .null) id (A ["obj", "num"]) {}).exit fqCodes = 0 ∧
+    (loopE (sampleEnvE .false) id (A ["num", "obj"]) {}).exit fqCodes = 0 ∧
+    (loopE (sampleEnvE .obj) id (A ["obj", "num"]) {}).exit fqCodes = 5 := by decide
 
 /-- non-vacuity of the loop theorems: an environment with all four kinds of input, every class occurs -/
 def sampleEnv : Env Nat Nat Nat where
